@@ -22,7 +22,7 @@ func init() { Registry["C10"] = c10 }
 func c10Alphabet() *term.Alphabet {
 	return &term.Alphabet{
 		Leaves: map[term.Ty][]*term.Term{
-			B: {term.Const(true), term.Const(false), term.Var("b", B)},
+			B: {term.Const(true), term.Const(false), term.Var("b", B), {K: term.KConst, Val: int64(1), Lit: "1", Ty: B}},
 			I: {term.Const(1), term.Const(0), term.Var("n", I), {K: term.KConst, Val: "1", Lit: `"1"`, Ty: I}},
 		},
 		Ops: []term.OpSig{
@@ -242,6 +242,14 @@ func c10(r *rep.Run) {
 				}
 			}
 		})
+		illBool := false
+		p.T.Walk(func(n *term.Term) {
+			if n.K == term.KConst && n.Ty == B {
+				if _, isB := n.Val.(bool); !isB {
+					illBool = true
+				}
+			}
+		})
 		var nb, tr, ex int64
 		for b := 0; b < 16; b++ {
 			o := drive.FromBits(b)
@@ -250,6 +258,10 @@ func c10(r *rep.Run) {
 			h := drive.NewHarness()
 			for name, fn := range es.fns() {
 				h.Register(name, fn)
+			}
+			// operators registered under builtin names: the builtin always wins, so these never run
+			for _, bn := range []string{"+", "/", "=", "and", "or", "not"} {
+				h.Register(bn, func([]interface{}) (interface{}, error) { return int64(424242), nil })
 			}
 			cfg := h.NewConfig(p.Vars, o)
 			cfg.StatelessOperators = []string{"s1", "m1"}
@@ -293,6 +305,18 @@ func c10(r *rep.Run) {
 					r.Violate("illegal-rewrite", p.Src+o.String(), "the optimised tree is not obtainable from the source by folding pure constant sub-trees / and-or with a deciding constant (plus flattening/reordering when enabled)", d(map[string]interface{}{"dump": dt.Src()}))
 				}
 			}
+			shadowRan := func(when string) bool {
+				for _, e := range h.Trace {
+					if !e.Get && ref.IsBuiltin(e.Name) {
+						r.Violate("shadowed-builtin-ran", e.Name+o.String(), sprintf("an operator registered under the builtin name %s was invoked %s", e.Name, when), d(nil))
+						return true
+					}
+				}
+				return false
+			}
+			if shadowRan("during Compile") {
+				continue
+			}
 			f := drive.NewFetcher(h, p.Vars, o)
 			ms := &c10state{ord: map[string]int64{}} // the model's ordinals
 			mfns := ms.fns()
@@ -318,6 +342,12 @@ func c10(r *rep.Run) {
 						return false
 					}
 					want := refOut(r1v, r1e)
+					if illBool {
+						// a non-boolean operand under and/or/not/if: what evaluation
+						// yields there is C18's open finding; only the compile-time
+						// oracles (relation, purity) apply to these programs
+						return true
+					}
 					if !drive.SameOutcome(got, want) {
 						r.Violate("evaluation", p.Src+o.String(), sprintf("evaluation #%d returns %s, reference evaluation of the optimised tree with the operators' current state gives %s (a baked-in result, a lost or spurious failure)", round+1, got, want), dd())
 						return false
